@@ -31,6 +31,14 @@ def run(tier, seed):
     mc = vlib.tlc_mc("C10", "RxSlot.tla", "MCRxSlot.cfg" if quick else "MCRxSlotDeep.cfg", workers=8 if quick else 14, timeout=3000)
     if not mc["ok"]:
         raise vlib.ToolError("RxSlot violates its properties (%s):\n%s" % (mc["violated"], mc["out_tail"]))
+    # the same machine with an exchange the device itself initiated (the role is part of the identity): safety;
+    # sensitivity: ignoring the role for initiator messages must violate RightExchangeOnly
+    mco = vlib.tlc_mc("C10", "RxSlot.tla", "MCRxSlotOwn.cfg", workers=8, timeout=3000)
+    if not mco["ok"]:
+        raise vlib.ToolError("RxSlot with a device-initiated exchange violates its invariants (%s):\n%s" % (mco["violated"], mco["out_tail"]))
+    blind = vlib.tlc_mc("C10", "RxSlot.tla", "MCRxSlot_roleBlind.cfg", workers=4, timeout=3000)
+    if blind["ok"] or blind["violated"] != "RightExchangeOnly":
+        raise vlib.ToolError("sensitivity: RxSlot with the role ignored should violate RightExchangeOnly: %s" % blind)
     num = 300 if quick else 6000
     beh, gen_states = vlib.tlc_sim("C10", "RxSlot.tla", "GenRxSlot.cfg", num=num, depth=80, seed=seed, timeout=2400)
     uniq, seen = [], set()
@@ -61,7 +69,8 @@ def run(tier, seed):
     ck.cov.update({
         "states": mc["distinct"] + states, "transitions": mc["generated"] + gen_states,
         "traces_validated_against_impl": n_runs, "exhaustive": False,
-        "design_model_runs": [{k2: mc[k2] for k2 in ("cfg", "generated", "distinct", "depth", "wall_s")}],
+        "design_model_runs": [{k2: m[k2] for k2 in ("cfg", "generated", "distinct", "depth", "wall_s")} for m in (mc, mco)],
+        "sensitivity": {"cfg": "MCRxSlot_roleBlind.cfg", "violated": blind["violated"]},
         "design_models_exhaustive": True, "design_liveness_checked": ["SlotEventuallyFree", "EventuallyClean"],
         "generator": {"cfg": "GenRxSlot.cfg", "schedules": len(beh), "harness_made": 11},
         "replay": summ,
